@@ -4,6 +4,7 @@ package main
 // instead of sending on a channel. Only consulted when a goroutine has no result send.
 
 import (
+	"go/token"
 	"strings"
 
 	"golang.org/x/tools/go/ssa"
@@ -109,8 +110,23 @@ func c14wgJoin(gi ssa.CallInstruction, g *ssa.Function, isQueryCall func(ssa.Val
 	nStores := 0
 	why := ""
 	eachInstrOf(region, func(f *ssa.Function, i ssa.Instruction) {
-		st, ok := i.(*ssa.Store)
-		if !ok || why != "" || !c14derives(st.Val, isQueryCall) {
+		if why != "" {
+			return
+		}
+		var st struct {
+			ssa.Instruction
+			Addr, Val ssa.Value
+		}
+		switch x := i.(type) {
+		case *ssa.Store:
+			st.Instruction, st.Addr, st.Val = x, x.Addr, x.Val
+		case *ssa.MapUpdate:
+			// a result kept in a shared map (`byName[name] = cfg`): a shared variable like any other
+			st.Instruction, st.Addr, st.Val = x, x.Map, x.Value
+		default:
+			return
+		}
+		if !c14derives(st.Val, isQueryCall) {
 			return
 		}
 		// locals of the goroutine itself do not hand anything over (what it shares with the spawner is captured or
@@ -118,7 +134,12 @@ func c14wgJoin(gi ssa.CallInstruction, g *ssa.Function, isQueryCall func(ssa.Val
 		if _, isAlloc := st.Addr.(*ssa.Alloc); isAlloc {
 			return
 		}
-		if ia, isElem := st.Addr.(*ssa.IndexAddr); isElem {
+		if mm, isLocalMap := st.Addr.(*ssa.MakeMap); isLocalMap && mm.Parent() == f {
+			return
+		}
+		// the place may be handed to the goroutine: `go func(result *[]string) { *result = ... }(&results[slot])`, or a
+		// pointer variable the goroutine function captures; what counts is the place at the go statement
+		if ia, isElem := c14handoverPlace(st.Addr, gi, g).(*ssa.IndexAddr); isElem {
 			if _, isAlloc := ia.X.(*ssa.Alloc); isAlloc {
 				return // variadic / literal temporaries
 			}
@@ -131,12 +152,12 @@ func c14wgJoin(gi ssa.CallInstruction, g *ssa.Function, isQueryCall func(ssa.Val
 		nStores++
 		locked := false
 		eachInstr(f, func(l ssa.Instruction) {
-			if !c14isLock(l, "Lock") || !dominatesInstr(l, st) {
+			if !c14isLock(l, "Lock") || !dominatesInstr(l, st.Instruction) {
 				return
 			}
 			released := false
 			eachInstr(f, func(u ssa.Instruction) {
-				if c14isLock(u, "Unlock") && canReach(l, u) && pathAvoiding(u, st, func(x ssa.Instruction) bool { return x == l }) {
+				if c14isLock(u, "Unlock") && canReach(l, u) && pathAvoiding(u, st.Instruction, func(x ssa.Instruction) bool { return x == l }) {
 					released = true
 				}
 			})
@@ -203,6 +224,62 @@ func c14wgJoin(gi ssa.CallInstruction, g *ssa.Function, isQueryCall func(ssa.Val
 		return false, "the spawner does not wait for the WaitGroup after the spawning loop"
 	}
 	return true, ""
+}
+
+// c14handoverPlace: the place a store of goroutine g (started by gi) writes to, seen from the spawner: a pointer
+// parameter of g is the argument of the go statement, a pointer parameter of a helper with one call site the argument
+// there, a pointer kept in a captured variable (or a local one) the one value assigned to it.
+func c14handoverPlace(addr ssa.Value, gi ssa.CallInstruction, g *ssa.Function) ssa.Value {
+	for d := 0; d < 6; d++ {
+		switch x := addr.(type) {
+		case *ssa.ChangeType:
+			addr = x.X
+		case *ssa.FieldAddr:
+			addr = x.X // a field of the slot (`s.cfg = ...` with s the goroutine's own element) is the slot
+		case *ssa.Parameter:
+			if x.Parent() == g && gi != nil {
+				args := gi.Common().Args
+				if _, isGo := gi.(*ssa.Go); !isGo || gi.Common().IsInvoke() {
+					return addr
+				}
+				for k, p := range g.Params {
+					if p == x && len(args) == len(g.Params) {
+						addr = args[k]
+					}
+				}
+			} else {
+				addr = c14resolveArg(x)
+			}
+			if addr == ssa.Value(x) {
+				return addr
+			}
+		case *ssa.UnOp:
+			// a load of a pointer variable: its single assignment
+			if x.Op != token.MUL {
+				return addr
+			}
+			cell := c14resolveArg(x.X) // a captured variable: the cell in the maker
+			al, ok := cell.(*ssa.Alloc)
+			if !ok || al.Referrers() == nil {
+				return addr
+			}
+			var val ssa.Value
+			n := 0
+			for _, r := range *al.Referrers() {
+				if st, isStore := r.(*ssa.Store); isStore && st.Addr == al {
+					val = st.Val
+					n++
+				}
+			}
+			if n != 1 {
+				return addr
+			}
+			addr = val
+		default:
+			return addr
+		}
+	}
+	return addr
 }
 
 func c14sameLoop(a, b *loop) bool {
